@@ -50,7 +50,7 @@ pub struct InitCase {
     pub with_slot: bool,
 }
 
-fn c06_check(c: &InitCase) -> Result<(bool, Vec<&'static str>), String> {
+pub fn c06_check(c: &InitCase) -> Result<(bool, Vec<&'static str>), String> {
     let n = c.frames;
     let classes = ClassKind::Simple([1, 1]);
     let tag = format!("[C06] frames={n} init={}", if c.alloc_all { "AllocAll" } else { "FreeAll" });
